@@ -358,7 +358,7 @@ func checkC20(c *runCtx) {
 	})
 	p := newVTPool()
 	defer p.close()
-	dl := c01deadline(c, 150, 1500)
+	dl := c01deadline(c, 240, 1500)
 	h1, h2 := []string{"host"}, []string{"host", "host"}
 	lowHigh := []uint32{2130706431, 1000}
 	type sp struct {
